@@ -116,8 +116,9 @@ func allConfigs() []config {
 	return out
 }
 
-// pickConfigs: thorough = the whole grid; quick = the default plus n seeded ones
-// (always at least one with minify-whitespace and one with charset utf8).
+// pickConfigs: thorough = the whole grid; quick = the default (ascii, pretty, no line limit, format preserved), its
+// complement in every two-valued dimension (utf8, minify-whitespace, line limit 20) under a seeded converting format,
+// and n-1 more seeded ones: every value of charset / minify-whitespace / line-limit occurs in every run.
 func pickConfigs(r *core.Run, n int) []config {
 	all := allConfigs()
 	if r.Thorough() {
@@ -125,15 +126,13 @@ func pickConfigs(r *core.Run, n int) []config {
 	}
 	out := []config{defaultConfig}
 	seen := map[string]bool{defaultConfig.Name(): true}
-	var mws, rest []config
+	var compl []config
 	for _, c := range all {
-		if c.MinifyWS {
-			mws = append(mws, c)
-		} else {
-			rest = append(rest, c)
+		if c.Charset == "utf8" && c.MinifyWS && c.LineLimit == 20 && c.Format != "preserve" {
+			compl = append(compl, c)
 		}
 	}
-	c := mws[r.Rand.Intn(len(mws))]
+	c := compl[r.Rand.Intn(len(compl))]
 	out = append(out, c)
 	seen[c.Name()] = true
 	for len(out) < n+1 {
@@ -143,7 +142,6 @@ func pickConfigs(r *core.Run, n int) []config {
 			out = append(out, c)
 		}
 	}
-	_ = rest
 	return out
 }
 
@@ -753,8 +751,9 @@ func replay(r *core.Run) {
 	var rec struct {
 		Key    map[string]interface{} `json:"key"`
 		Detail struct {
-			Case   json.RawMessage `json:"case"`
-			Config config          `json:"config"`
+			Case     json.RawMessage `json:"case"`
+			Config   config          `json:"config"`
+			Contexts []litCtx        `json:"contexts"`
 		} `json:"detail"`
 	}
 	if err := json.Unmarshal(data, &rec); err != nil {
@@ -770,6 +769,10 @@ func replay(r *core.Run) {
 	case "literal":
 		var c litCase
 		json.Unmarshal(rec.Detail.Case, &c)
+		for _, cx := range rec.Detail.Contexts {
+			litContexts[cx.Name] = cx
+			c.Ctxs = []string{cx.Name} // the one context of the recorded violation
+		}
 		runLiterals(r, []litCase{c}, cfgs)
 	case "jsx":
 		var c jsxCase
